@@ -11,7 +11,7 @@ rsync -a --exclude build --exclude evidence --exclude .git --exclude 'replay/tar
 ( cd $R && git init -q . && git add -A >/dev/null 2>&1 && git -c user.email=x@x -c user.name=x commit -qm base >/dev/null 2>&1 )
 export VERIF_REPO=$R VERIF_BUILD=$B VERIF_EVIDENCE_DIR=$E
 cd $V
-declare -A props=( [r1]="C18 C14 C03" [r2]="C01 C11 C16 C03" [r3]="C01 C11 C16 C03" [r4]="C19 C06 C20 C03" [r5]="C18 C14 C03" [r6]="C18 C19 C03" [r7]="C01 C16 C11 C03" [r8]="C09 C08 C07 C05" )
+declare -A props=( [r1]="C18 C14 C03" [r2]="C01 C11 C16 C03" [r3]="C01 C11 C16 C03" [r4]="C19 C06 C20 C03" [r5]="C18 C14 C03" [r6]="C18 C19 C03" [r7]="C01 C16 C11 C03" [r8]="C09 C08 C07 C05" [r9]="C19 C13 C01 C11 C03" )
 if [ "$what" = seeds ]; then
   for d in seeded/*/; do
     [ -f $d/meta.json ] || continue
